@@ -332,6 +332,7 @@ def ops_for(ref):
             continue
         seen_t.add(tuple(t))
         ops.append(('remove_transition', t[0], t[1], t[2]))
+        ops.append(('add_transition', t[0], t[1], t[2]))       # a second, equal-looking transition
         for ns in [''] + names[:4] + ['zz']:
             for nt in ['', None] + names[:3] + ['zz']:
                 ops.append(('rotate_transition', tuple(t), ns, nt))
